@@ -250,7 +250,25 @@ impl Property for C06 {
             Err(_) => Verdict::Discard("unreadable-case"),
         }
     }
-    fn extra_stages(&self, _tier: Tier, _seed: u64, stats: &mut Stats) -> Option<Failure> {
+    fn extra_stages(&self, tier: Tier, seed: u64, stats: &mut Stats) -> Option<Failure> {
+        if tier == Tier::Thorough {
+            let found = crate::fuzzstage::run_fuzz_stage("roundtrip", 400_000, 8, seed, stats, &|bytes| {
+                let text = String::from_utf8_lossy(bytes).to_string();
+                let class = match crate::fuzz_api::roundtrip_verdict(&text) {
+                    Ok(()) => return None,
+                    Err((class, _)) => class,
+                };
+                let min = crate::fuzzstage::ddmin(&text, &|t| {
+                    matches!(crate::fuzz_api::roundtrip_verdict(t), Err((c, _)) if c == class)
+                });
+                let t = parse_extended_formula(&min).ok()?;
+                let f = from_tree(&t);
+                check_tree("fuzz", &f, &t).err()
+            });
+            if found.is_some() {
+                return found;
+            }
+        }
         let by_size = small_formulas(4);
         let mut count = 0u64;
         let mut nontrivial = 0u64;
